@@ -725,7 +725,7 @@ class CSSSerializer:
             for item in rule.seq:
                 type_, val = item.type, item.value
                 # PRE
-                if '}' == val:
+                if '}' == val and type_ != 'STRING' and stacks:
                     # close last open item on stack
                     stackblock = stacks.pop().value()
                     if stackblock:
@@ -742,7 +742,7 @@ class CSSSerializer:
                     out.append(val, type_)
 
                 # POST
-                if '{' == val:
+                if '{' == val and type_ != 'STRING':
                     # new stack level
                     stacks.append(Out(self))
 
